@@ -1222,12 +1222,15 @@ package larking
 // status 1000, which wsutil.ReadClientData reports as a wsutil.ClosedError; the handler must see
 // that as the clean end of the stream, io.EOF, and every other read failure as an error, C06)
 //@ spec NormalClosure(e) = typeof(e) == typeid("wsutil.ClosedError") && unbox(e, "wsutil.ClosedError").Code == 1000
-//@ func (*streamWS).RecvMsg serves C09 C16 C08 C06 partial pre[protoreflect inv.init inv.keep assert index nil ghost
+//@ func (*streamWS).RecvMsg serves C09 C16 C08 C06 partial pre[protoreflect inv.init inv.keep assert index nil ghost post
 //@   requires s != nil && s.method != nil && AllSingular(s.method.body) && impl(m, "proto.Message")
 //@   assert atcall `protojson.Unmarshal(` [websocket-receive-limit C08] len(arg0) <= s.maxRecv
 //@   assert at "return err" [a-normal-closure-is-the-end-of-the-stream-not-an-error C06] !NormalClosure(err)
 //@   assert at "return io.EOF" [end-of-stream-only-after-a-normal-closure C06] NormalClosure(err)
 //@   assert at "return err" [a-failed-read-is-never-a-clean-end C06] err != io.EOF
+//@   returns (err)
+//@   ensures [no-phantom-message-without-a-body C06] !s.method.hasBody && old(s.recvN) >= 1 ==> err != nil
+//@   witness verifWitnessWSNoBody for no-phantom-message
 //@   witness verifWitnessWSEndOfStream for a-normal-closure
 //@   witness verifWitnessWSEndOfStream for a-failed-read
 //@   witness verifWitnessWSEndOfStream for end-of-stream-only
